@@ -12,7 +12,7 @@
    It holds for every call tree in which no `return` statement executes inside an open
    try/finally ([clean]), and for every call tree under the repaired placement. *)
 From Coq Require Import List Bool Arith.
-From CyVerif Require Import Model.M_Trace Proof.P_Trace.
+From CyVerif Require Import Model.M_Trace Proof.P_Trace Model.M_TraceGen Proof.P_TraceGen.
 Import ListNotations.
 
 (* balanced + matching ids + nesting = the call tree; code as it is, outside the finding class *)
@@ -97,6 +97,81 @@ Theorem C45_unstarted_close_differs :
   ev_py Legacy false w_unstarted = [(KCall, 0); (KRet, 0)].
 Proof. exact unstarted_close_differs. Qed.
 Print Assumptions C45_unstarted_close_differs.
+
+(* ---------------------------------------------------------------------------------------------
+   Code-generation level (Model/M_TraceGen.v).  A program is a list of functions (kind, body,
+   tflag); kinds: KFunc (def / cdef / cpdef / lambda / method: FuncDefNode) and KGen inlined comp
+   (generator, coroutine, async generator, generator expression - real, or inlined into
+   any/all/sorted/list/set/dict/str.join: GeneratorBodyDefNode).  [run g fx fn fuel o] = tokens of
+   the trace macros the generated C executes for the oracle o (what every call, condition,
+   iterator and resume did); g = the guard of the fall-off-the-end return event, all_true for the
+   code as it is.  An execution of a program = a tree [xt] of C-level activations (segments);
+   [word] = the events it emits.  [complete] only asks that every node names a function and a
+   segment that ran to its C return (decided from the outcome, not from the tokens).
+   prog_ok fx: tflag -> the end of the body is unreachable; and fx or no return inside
+   try/finally (the known finding, C45_early_return_refuted). *)
+
+(* THE BALANCE THEOREM for programs: every execution of every program emits a Dyck word with
+   matching ids, line events inside their activation, empty stack at the end; the nesting is the
+   execution tree; exactly one start and one end event per activation / generator segment *)
+Theorem C45_program_events_balanced : forall fx prog x t lt,
+  prog_ok fx prog = true -> complete all_true fx prog x = true ->
+  exists n, to_node all_true fx prog x = Some n /\
+            word all_true fx t lt prog x = ev_cy t fx lt n /\
+            parse (word all_true fx t lt prog x) [] [] = Some [shape_of n] /\
+            count_class CStart (word all_true fx t lt prog x) = size n /\
+            count_class CEnd (word all_true fx t lt prog x) = size n.
+Proof. exact program_events_balanced. Qed.
+Print Assumptions C45_program_events_balanced.
+
+(* ... for any guard that is true for every kind: each segment reads as a clean M_Trace node *)
+Theorem C45_program_node : forall g fx prog,
+  (forall k, g k = true) -> prog_ok fx prog = true ->
+  forall x, complete g fx prog x = true ->
+    exists n, to_node g fx prog x = Some n /\ clean n = true /\
+              forall t lt, word g fx t lt prog x = ev_cy t fx lt n.
+Proof. intros g fx prog Hg Hp. exact (proj1 (program_node g fx prog Hg Hp)). Qed.
+Print Assumptions C45_program_node.
+
+(* the fall-off event is needed for EVERY kind: a guard that is false for one kind leaves the
+   start event of a one-statement function of that kind unmatched *)
+Theorem C45_falloff_guard_necessary : forall g k,
+  g k = false ->
+  prog_ok false (w_prog k) = true /\ complete g false (w_prog k) w_tree = true /\
+  word g false Legacy false (w_prog k) w_tree = [(KCall, 0)] /\
+  well_nested (word g false Legacy false (w_prog k) w_tree) = false.
+Proof. exact falloff_guard_necessary. Qed.
+Print Assumptions C45_falloff_guard_necessary.
+
+(* "if tracing and not self.is_inlined and not self.body.is_terminator" on list(genexpr) *)
+Theorem C45_not_inlined_guard_refuted :
+  prog_ok false s_prog = true /\
+  complete g_not_inlined false s_prog s_tree = true /\
+  word g_not_inlined false Legacy false s_prog s_tree = [(KCall, 0); (KCall, 1); (KRet, 0)] /\
+  parse (word g_not_inlined false Legacy false s_prog s_tree) [] [] = None /\
+  word all_true false Legacy false s_prog s_tree = [(KCall, 0); (KCall, 1); (KRet, 1); (KRet, 0)] /\
+  parse (word all_true false Legacy false s_prog s_tree) [] [] = Some [Sh 0 [Sh 1 []]].
+Proof. exact seeded_guard_refuted. Qed.
+Print Assumptions C45_not_inlined_guard_refuted.
+
+(* the compiler's is_terminator flag is sound: such a body never completes normally, so the
+   guarded fall-off code is never needed when it is omitted *)
+Theorem C45_terminator_sound : forall fx gen n d b o,
+  is_term b = true -> snd (fst (exec_b fx gen n d b o)) <> ONormal.
+Proof. intros fx gen n d b o. exact (proj1 (proj2 (term_sound fx gen n)) d b o). Qed.
+Print Assumptions C45_terminator_sound.
+
+(* an inlined generator expression (and a plain function) is ONE C-level activation *)
+Theorem C45_inlined_single_segment : forall g fx fn n o c,
+  f_kind fn = KGen true c -> count_yield (fst (run g fx fn n o)) = 0.
+Proof. exact inlined_single_segment. Qed.
+Print Assumptions C45_inlined_single_segment.
+
+(* the fall-off macro is present in the generated text iff guard and not is_terminator (static tie) *)
+Theorem C45_epilogue_fall_iff : forall g k tf,
+  In EFall (epilogue g k tf) <-> (g k = true /\ tf = false).
+Proof. exact epilogue_fall_iff. Qed.
+Print Assumptions C45_epilogue_fall_iff.
 
 (* f0 calls a generator segment that yields, then f1 which raises into f0's handler, returns *)
 Example C45_nonvacuous :
